@@ -2,7 +2,7 @@
     Commits on a cache over a given initial remote tree.  Each step carries what the cache
     returned and, where the harness took them, the walk of the REMOTE filespace and the walk
     of the tree as seen THROUGH the cache. *)
-From GC Require Import Common.Base Model.Paths Model.Fs Model.Cache Corr.FsCorr.
+From GC Require Import Common.Base Model.Paths Model.Fs Model.Cache Model.CacheDirect Corr.FsCorr.
 
 Record cstep := mkCStep { s_op : cop; s_out : out; s_remote : option fs; s_view : option fs }.
 
@@ -29,8 +29,42 @@ Fixpoint check_steps (c : cache) (dirty : bool) (l : list cstep) : bool :=
     check_steps c' dirty' l'
   end.
 
+(** Second relation (the C06_history theorems): the same history with the OBSERVED remote swapped in after
+    every failed Commit ([HFault]), next to a plain tree to which the successful operations are
+    applied directly ([direct_step]).  Every observed failure must be accepted by [partial_ok] in
+    the state it happened in (the hypothesis [hist_valid] of the history theorems, also for a
+    second failure before any successful retry), and every walk through the cache, and of the
+    remote after a successful Commit, must be that plain tree. *)
+Definition view_is (t : fs) (s : cstep) : bool :=
+  match s_view s with Some w => tree_eqb t w | None => true end.
+
+Fixpoint check_direct (c : cache) (t : fs) (l : list cstep) : bool :=
+  match l with
+  | [] => true
+  | s :: l' =>
+    let h := match s_op s, s_remote s with
+             | CCommitFault, Some w => HFault w
+             | CCommitFault, None => HFault (cR c)
+             | CCommit, _ => HCommit
+             | COp o, _ => HOp o
+             end in
+    let c' := hev_step c h in
+    match h with
+    | HOp o =>
+      if hev_ok c h then
+        let t' := if is_unit (snd (cache_step c (COp o))) then direct_step t o else t in
+        view_is t' s && check_direct c' t' l'
+      else true      (* a directory copy that stopped half way: the harness ends the history here *)
+    | HCommit =>
+      match s_remote s with Some w => tree_eqb t w | None => true end && view_is t s && check_direct c' t l'
+    | HFault _ => hev_ok c h && view_is t s && check_direct c' t l'
+    end
+  end.
+
 Definition check (c : case) : bool :=
-  match c with CCache init steps => check_steps (new_cache init) false steps end.
+  match c with
+  | CCache init steps => check_steps (new_cache init) false steps && check_direct (new_cache init) init steps
+  end.
 
 Fixpoint first_bad (i : nat) (c : cache) (l : list cstep) : option (nat * out * cache) :=
   match l with
